@@ -7,6 +7,7 @@ From PGV Require Import Extracted.SourceConst.
 From PGV Require Import Model.RuleText Model.Value Model.Clause Model.Rules Model.Walk Model.Explain.
 From PGV Require Import Spec.RuleTextSpec Spec.ExplainSpec.
 From PGV Require Import Proofs.RuleTextProofs Proofs.RuleContract Proofs.C15Final Proofs.ExplainProofs.
+From PGV Require Import Base.MiniGo Extracted.SourceFnsMsg Model.GoParse Proofs.GoMsgProofs.
 
 (* the label: Chinese when the message contains a CJK character (the class of the source's
    IncludeZhRe), English otherwise; then one blank and the message unchanged *)
@@ -20,6 +21,24 @@ Theorem C15_custom_verbatim : forall obj field echo m,
   Some (quoted_prefix (valid_path obj field) ++ s2b "input """ ++ echo ++ [DQ] ++ s2b ", " ++ label m).
 Proof. exact custom_clause_text. Qed.
 Print Assumptions C15_custom_verbatim.
+
+(* FROM THE SOURCE TEXT.  fn_GetJoinValidErrStr is the go/ast syntax tree of GetJoinValidErrStr (valid/common.go), the
+   function that words every rule violation, regenerated from /repo on every run.  Under the semantics of
+   Model/GoParse.v (the pooled strings.Builder, strings.Contains, the range loop over the further texts with its
+   continue) it computes the model's join_valid_err for EVERY object name, field name, echoed input and EVERY list of
+   further texts — by induction over that list — and never indexes out of range. *)
+Theorem C15_formatter_from_source : forall (obj field echo : str) (others : list str),
+  run_join fn_GetJoinValidErrStr obj field echo others = Some (join_valid_err obj field echo others).
+Proof. exact join_from_source. Qed.
+Print Assumptions C15_formatter_from_source.
+
+(* ... so the clause of C15_custom_verbatim is what the source writes for a custom message m as the parser hands it
+   over (label m): the message verbatim behind its one label, then the clause separator *)
+Theorem C15_custom_from_source : forall obj field echo m,
+  run_join fn_GetJoinValidErrStr obj field echo [label m] =
+  Some (quoted_prefix (valid_path obj field) ++ s2b "input """ ++ echo ++ [DQ] ++ s2b ", " ++ label m ++ ErrEndFlag).
+Proof. exact custom_from_source. Qed.
+Print Assumptions C15_custom_from_source.
 
 (* every rule function that supports a message: its clause carries the message of the rule text
    when there is one and the default wording only when there is none *)
